@@ -464,6 +464,14 @@ func coqHead(o outcome) string {
 	return hexs(o.sc.head)
 }
 
+// coqFarHead: the 101 head of a plain-text Upgrade (behind TLS the transport's reads are not visible)
+func coqFarHead(o outcome) string {
+	if o.res.P.Mode != "upgrade" {
+		return hexs(nil)
+	}
+	return hexs(o.sc.farReplyHead)
+}
+
 func coqNats(v []int) string {
 	if len(v) == 0 {
 		return "(@nil nat)"
@@ -506,8 +514,8 @@ func coqCase(o outcome, graceNs int64) string {
 		tr := fmt.Sprintf("(%s %s)", fn, hexChunks(traceString(o.built.Labels, p.Concrete)))
 		ok := len(o.built.Problems) == 0
 		if p.Concrete {
-			fmt.Fprintf(&sb, "{| cc_mode := %d; cc_wellformed := %s; cc_grace := (%d)%%Z; cc_fr := %s; cc_tmo := %s; cc_treq := (%d)%%Z; cc_tresp := (%d)%%Z; cc_weak := %s; cc_cipher_wn := %d; cc_cipher_w := %d; cc_cipher_r := %d; cc_head := %s; cc_lcsched := %s; cc_socks := %s; cc_dcread0 := %d; cc_early := %s; cc_skip := %s; cc_kept := %s;\n   cc_trace := %s;\n   cc_obs := %s |}",
-				modeN(p.Mode), b2c(ok), graceNs, coqFraming(p), coqTimeouts(p), o.built.TReq, o.built.TResp, b2c(o.built.Weak), o.built.CipherWN, o.built.CipherW, o.built.CipherR, coqHead(o), coqNats(o.built.LCSched), hexs(o.sc.socksReply), o.built.DCRead0, hexs(o.built.Early), hexs(o.built.Skip), hexs(o.built.Kept), tr, coqObs(o, true))
+			fmt.Fprintf(&sb, "{| cc_mode := %d; cc_wellformed := %s; cc_grace := (%d)%%Z; cc_fr := %s; cc_tmo := %s; cc_treq := (%d)%%Z; cc_tresp := (%d)%%Z; cc_weak := %s; cc_cipher_wn := %d; cc_cipher_w := %d; cc_cipher_r := %d; cc_head := %s; cc_lcsched := %s; cc_farhead := %s; cc_dcsched := %s; cc_socks := %s; cc_dcread0 := %d; cc_early := %s; cc_skip := %s; cc_kept := %s;\n   cc_trace := %s;\n   cc_obs := %s |}",
+				modeN(p.Mode), b2c(ok), graceNs, coqFraming(p), coqTimeouts(p), o.built.TReq, o.built.TResp, b2c(o.built.Weak), o.built.CipherWN, o.built.CipherW, o.built.CipherR, coqHead(o), coqNats(o.built.LCSched), coqFarHead(o), coqNats(o.built.DCSched), hexs(o.sc.socksReply), o.built.DCRead0, hexs(o.built.Early), hexs(o.built.Skip), hexs(o.built.Kept), tr, coqObs(o, true))
 		} else {
 			fmt.Fprintf(&sb, "{| ac_mode := %d; ac_wellformed := %s; ac_grace := (%d)%%Z; ac_fr := %s; ac_tmo := %s; ac_treq := (%d)%%Z; ac_tresp := (%d)%%Z; ac_early := %d; ac_skip := %d; ac_kept := %d;\n   ac_trace := %s;\n   ac_obs := %s |}",
 				modeN(p.Mode), b2c(ok), graceNs, coqFraming(p), coqTimeouts(p), o.built.TReq, o.built.TResp, o.built.EarlyN, o.built.SkipN, o.built.KeptN, tr, coqObs(o, false))
